@@ -164,6 +164,22 @@ func checkSelectorGrammar(r *Run, ga *GA, pfx string) {
 					// pass-through of a label
 					return true
 				case *ast.CallExpr:
+					// string(c.text[k:]) — the same bytes as string(c.text)[k:]
+					if tvf, isConv := info.Types[v.Fun]; isConv && tvf.IsType() && len(v.Args) == 1 {
+						if bt, isB := tvf.Type.Underlying().(*types.Basic); isB && bt.Kind() == types.String {
+							if sl, isSl := ast.Unparen(v.Args[0]).(*ast.SliceExpr); isSl && sl.High == nil && sl.Max == nil && sl.Low != nil {
+								whole := &ast.CallExpr{Fun: v.Fun, Args: []ast.Expr{sl.X}}
+								if tvl := info.Types[sl.Low]; tvl.Value != nil && isMatchedText(info, pfd, whole) {
+									k, _ := constant.Int64Val(tvl.Value)
+									want := firstLiteralLen(pn)
+									if int(k) != want {
+										ok, why = false, fmt.Sprintf("the part drops %d bytes of the matched text but the production's leading literal is %d bytes long", k, want)
+									}
+									return true
+								}
+							}
+						}
+					}
 					if isMatchedText(info, pfd, v) {
 						// the part is the matched text itself: the production must not start with a separator literal
 						if l := firstLiteralLen(pn); l > 0 {
